@@ -91,6 +91,8 @@ var c16Ops = []c16Op{
 		func(s *c16Ref) bool { s.Set = ref.Remove(s.Set, []string{"a"}); return true }},
 	{"Remove(zz)", func(gp *engine.GenginePool) error { return gp.RemoveRules([]string{"zz"}) },
 		func(s *c16Ref) bool { return true }},
+	{"Remove(b,zz,c)", func(gp *engine.GenginePool) error { return gp.RemoveRules([]string{"b", "zz", "c"}) },
+		func(s *c16Ref) bool { s.Set = ref.Remove(s.Set, []string{"b", "zz", "c"}); return true }},
 	{"Clear", func(gp *engine.GenginePool) error { gp.ClearPoolRules(); return nil },
 		func(s *c16Ref) bool { s.Set, s.Cleared = ref.RuleSet{}, true; return true }},
 	{"SetExecModel(concurrent)", func(gp *engine.GenginePool) error { return gp.SetExecModel(engine.ConcurrentModel) },
@@ -348,16 +350,16 @@ func init() {
 	hx.Register(&hx.Prop{
 		ID:          "C16",
 		Workers:     func(string) int { return 16 },
-		BudgetQuick: 150 * time.Second,
+		BudgetQuick: 300 * time.Second,
 		BudgetThor:  30 * time.Minute,
 		Kind:        "cases",
-		Rule: "every sequence of length <=4 on pool (1,2) and <=3 on pool (2,3) (thorough <=6 resp. <=5, time-capped) over 12 management operations {full update A (3 rules), full update B (2 rules, one shared name, other salience), incremental: new rule / existing name same salience / existing name new salience, remove existing, remove absent, clear, SetExecModel(concurrent), SetExecModel(invalid), incremental with syntax error, full update with syntax error} from pools (1,2) and (2,3) - no state merging: the pool object is cloned at every node of the sequence tree; " +
+		Rule: "every sequence of length <=4 on pool (1,2) and <=3 on pool (2,3) (thorough <=5 resp. <=4) over 13 management operations {full update A (3 rules), full update B (2 rules, one shared name, other salience), incremental: new rule / existing name same salience / existing name new salience, remove existing, remove absent, remove a list mixing existing and absent names, clear, SetExecModel(concurrent), SetExecModel(invalid), incremental with syntax error, full update with syntax error} from pools (1,2) and (2,3) - no state merging: the pool object is cloned at every node of the sequence tree; " +
 			"after EVERY prefix: all queries (IsExist, GetRulesNumber, GetRuleSalience, GetRuleDesc, GetExecModel) and executions forced onto EVERY instance (max requests held inside their first rule simultaneously, under the controlled scheduler) are compared with the reference rule set / model; failed operations change nothing; no step panics",
 		Assume: []string{"pool states are cloned with gx.DeepClone (compiled rules shared: immutable)", "removing every rule (without clear) demands only that no rule runs"},
 		Run: func(c *hx.Ctx) {
 			d12, d23 := 4, 3
 			if c.Thorough() {
-				d12, d23 = 6, 5
+				d12, d23 = 5, 4 // 13^5 + 13^4 sequences; one level more does not finish in half an hour
 			}
 			c16Explore(c, 1, 2, d12)
 			c16Explore(c, 2, 3, d23)
